@@ -19,7 +19,8 @@ Definition P (l c : N) : pos := mkpos l c.
 Definition plain : opts := mkopts None None 1144750080 None false None.
 Definition with_prefix : opts := mkopts (Some [112]) None 1144750080 None false None.
 
-(* D13  .a:not(:is(.b .c)){}  -> the inner function is processed as a declaration value *)
+(* Former D13 witness  .a:not(:is(.b .c)){}  : before fix f5fc923 the inner function was processed
+   as a declaration value (`:is(.b.c)`, no prefixes); the model mirrors the repaired code. *)
 Definition d13_tree : list node :=
   [Leaf (TDelim 46) (P 0 0); Leaf (TIdent [97]) (P 0 1); Leaf TColon (P 0 2);
    Block (TFunc [110;111;116]) (P 0 3)
@@ -29,18 +30,15 @@ Definition d13_tree : list node :=
          Leaf (TDelim 46) (P 0 14); Leaf (TIdent [99]) (P 0 15)] (P 0 16) true] (P 0 17) true;
    Block TCurly (P 0 18) [] (P 0 19) true].
 
-Theorem conforms_refuted_d13 :
-  wf_tree with_prefix d13_tree = true /\ model_conforms with_prefix d13_tree (P 0 20) = false /\
-  known with_prefix d13_tree = [K13].
+Example former_d13_now_conforms :
+  wf_tree with_prefix d13_tree = true /\ known with_prefix d13_tree = [] /\
+  model_conforms with_prefix d13_tree (P 0 20) = true /\
+  map ser_tok (o_tokens (w_normal (transform with_prefix d13_tree (P 0 20)))) =
+    [[46]; [112;45;45;97]; [58]; [110;111;116;40]; [58]; [105;115;40]; [46]; [112;45;45;98]; [32]; [46];
+     [112;45;45;99]; [41]; [41]; [123]; [125]].
 Proof. vm_compute. repeat split; reflexivity. Qed.
 
-Theorem conforms_refuted : ~ C08_conforms_full.
-Proof.
-  intro H. specialize (H with_prefix d13_tree (P 0 20)).
-  destruct conforms_refuted_d13 as [W [F _]]. rewrite F in H. specialize (H W). clear - H. discriminate H.
-Qed.
-
-(* D14  @layer x{.a .b{}}  -> the block of @layer is processed as a declaration value *)
+(* Former D14 witness  @layer x{.a .b{}}  (before fix 412b5df the block was a declaration value) *)
 Definition d14_tree : list node :=
   [Leaf (TAt s_layer) (P 0 0); Leaf (TWs [32]) (P 0 6); Leaf (TIdent [120]) (P 0 7);
    Block TCurly (P 0 8)
@@ -48,9 +46,11 @@ Definition d14_tree : list node :=
       Leaf (TDelim 46) (P 0 12); Leaf (TIdent [98]) (P 0 13);
       Block TCurly (P 0 14) [] (P 0 15) true] (P 0 16) true].
 
-Theorem conforms_refuted_d14 :
-  wf_tree plain d14_tree = true /\ model_conforms plain d14_tree (P 0 17) = false /\
-  known plain d14_tree = [K14].
+Example former_d14_now_conforms :
+  wf_tree with_prefix d14_tree = true /\ known with_prefix d14_tree = [] /\
+  model_conforms with_prefix d14_tree (P 0 17) = true /\
+  map ser_tok (o_tokens (w_normal (transform with_prefix d14_tree (P 0 17)))) =
+    [[64;108;97;121;101;114]; [32]; [120]; [123]; [46]; [112;45;45;97]; [32]; [46]; [112;45;45;98]; [123]; [125]; [125]].
 Proof. vm_compute. repeat split; reflexivity. Qed.
 
 (* D15  a{b:U+26}  -> `U +26` *)
@@ -65,7 +65,23 @@ Theorem conforms_refuted_d15 :
   known plain d15_tree = [K15].
 Proof. vm_compute. repeat split; reflexivity. Qed.
 
-(* D23  a{b:min(1px + 2px)}  -> `min(1px+ 2px)` *)
+Theorem conforms_refuted : ~ C08_conforms_full.
+Proof.
+  intro H. specialize (H plain d15_tree (P 0 9)).
+  destruct conforms_refuted_d15 as [W [F _]]. rewrite F in H. specialize (H W). clear - H. discriminate H.
+Qed.
+
+(* D27  a||b{}  -> `a| |b{}` *)
+Definition d27_tree : list node :=
+  [Leaf (TIdent [97]) (P 0 0); Leaf (TDelim 124) (P 0 1); Leaf (TDelim 124) (P 0 2); Leaf (TIdent [98]) (P 0 3);
+   Block TCurly (P 0 4) [] (P 0 5) true].
+
+Theorem conforms_refuted_d27 :
+  wf_tree plain d27_tree = true /\ model_conforms plain d27_tree (P 0 6) = false /\
+  known plain d27_tree = [K27].
+Proof. vm_compute. repeat split; reflexivity. Qed.
+
+(* Former D23 witness  a{b:min(1px + 2px)}  (before fix 1dd75dd: `min(1px+ 2px)`) *)
 Definition px (v : N) (i : Z) (src : str) : tok := TDim (mknum false (Some i) v src) [112;120].
 Definition d23_tree : list node :=
   [Leaf (TIdent [97]) (P 0 0);
@@ -75,9 +91,11 @@ Definition d23_tree : list node :=
         [Leaf (px 1065353216 1 [49]) (P 0 8); Leaf (TWs [32]) (P 0 11); Leaf (TDelim 43) (P 0 12);
          Leaf (TWs [32]) (P 0 13); Leaf (px 1073741824 2 [50]) (P 0 14)] (P 0 17) true] (P 0 18) true].
 
-Theorem conforms_refuted_d23 :
-  wf_tree plain d23_tree = true /\ model_conforms plain d23_tree (P 0 19) = false /\
-  known plain d23_tree = [K23].
+Example former_d23_now_conforms :
+  wf_tree plain d23_tree = true /\ known plain d23_tree = [] /\
+  model_conforms plain d23_tree (P 0 19) = true /\
+  map ser_tok (o_tokens (w_normal (transform plain d23_tree (P 0 19)))) =
+    [[97]; [123]; [98]; [58]; [109;105;110;40]; [49;112;120]; [32]; [43]; [32]; [50;112;120]; [41]; [125]].
 Proof. vm_compute. repeat split; reflexivity. Qed.
 
 (* a clean sheet that exercises both contexts conforms:  #x .a > .b:not(.c .d){w:calc(1px + 2px) 10rpx} *)
@@ -138,12 +156,30 @@ Definition C09_prefix_exact_full : Prop :=
     map ser_tok (idents (o_tokens (w_normal (transform o tree endp)))) =
     map ser_tok (idents (map e_tok (so_normal (expected o tree)))).
 
+(* D25  @import 'a' layer(b.t);  with an import sign and a prefix: the layer name `b.t` goes through
+   the class-name converter (`@layer b.p--t`) *)
+Definition d25_opts : opts := mkopts (Some [112]) None 1144750080 (Some [73]) false None.
+Definition d25_tree : list node :=
+  [Leaf (TAt s_import) (P 0 0); Leaf (TWs [32]) (P 0 7); Leaf (TStr [97]) (P 0 8); Leaf (TWs [32]) (P 0 11);
+   Block (TFunc s_layer) (P 0 12)
+     [Leaf (TIdent [98]) (P 0 18); Leaf (TDelim 46) (P 0 19); Leaf (TIdent [116]) (P 0 20)] (P 0 21) true;
+   Leaf TSemi (P 0 22)].
+
 Theorem prefix_exact_refuted : ~ C09_prefix_exact_full.
 Proof.
-  intro H. specialize (H with_prefix d13_tree (P 0 20)).
-  assert (W : wf_tree with_prefix d13_tree = true) by (vm_compute; reflexivity).
+  intro H. specialize (H d25_opts d25_tree (P 0 23)).
+  assert (W : wf_tree d25_opts d25_tree = true) by (vm_compute; reflexivity).
   specialize (H W). clear W. vm_compute in H. discriminate H.
 Qed.
+
+Example prefix_exact_refuted_class : known d25_opts d25_tree = [K25].
+Proof. vm_compute. reflexivity. Qed.
+
+(* the former refutation witness `.a:not(:is(.b .c))` (D13) now satisfies the statement *)
+Example prefix_exact_former_d13 :
+  map ser_tok (idents (o_tokens (w_normal (transform with_prefix d13_tree (P 0 20))))) =
+  map ser_tok (idents (map e_tok (so_normal (expected with_prefix d13_tree)))).
+Proof. vm_compute. reflexivity. Qed.
 
 Example prefix_exact_clean :
   map ser_tok (idents (o_tokens (w_normal (transform with_prefix clean_tree (P 0 46))))) =
